@@ -68,6 +68,13 @@ func (e *Engine) genFunction(fc *FuncContract, mode *Mode, auto map[string]int) 
 			}
 		}
 	}()
+	if fn.TypeParams().Len() > 0 {
+		// the type parameters of a generic function under contract are visible to its contract under their names
+		vc.tparams = map[string]types.Type{}
+		for i := 0; i < fn.TypeParams().Len(); i++ {
+			vc.tparams[fn.TypeParams().At(i).Obj().Name()] = fn.TypeParams().At(i)
+		}
+	}
 	fr := &Frame{vc: vc, fn: fn, env: map[ssa.Value]*Term{}, tuples: map[ssa.Value][]*Term{}, fc: fc, mode: mode, lets: map[string]Binding{}, autoLevel: auto}
 	fr.topProps = fc.props()
 	st := &State{guard: tTrue, st: map[string]*Term{}}
